@@ -45,6 +45,11 @@ def generate(seed, tier):
             tp["limits"] = {"MAX_VARIABLES": budget}
         if r.random() < 0.2:
             tp["args"]["frame_type"] = "all_frame"
+        if r.random() < 0.12:
+            # a deferred snapshot whose log message breaks off after its first field (a stray brace): whatever becomes of
+            # it, a snapshot that is sent is closed - the captured return value here is the very object the field produced
+            tp.update(line="midcall", watches=[], via="service", args={"stage": "line_capture", "frame_type": "no_frame",
+                                                        "log_msg": "n={len(m1) + 1} }"})
         tps.append(tp)
     return {"prog": {"seed": seed, "name": "simval_%d" % (seed % 5), "opts": opts}, "tps": tps,
             "threads": [1] if r.random() < 0.7 else [1, 1], "knobs": common.draw_knobs(r, stall_p=0.0)}
@@ -93,6 +98,15 @@ def execute(scenario, ch):
         # was there sharing to detect?  (a reference node reachable along two paths)
         if res.edges > len(res.matched):
             shared_seen += 1
+    # every snapshot the service received is closed - also those that were completed on a later event than the one that
+    # triggered them (deferred: not paired with a capture above)
+    judged = {id(c["view"]) for c in cases if c["view"] is not None}
+    for hid, snaps in sorted(ctx.get("wire", {}).items()):
+        for sn in snaps:
+            if id(sn) in judged:
+                continue
+            for iss in snapcheck.closure_issues(sn):
+                viol.append(V("dangling-ref:deferred", "%r (tp %s)" % (iss, sn.tracepoint.ID)))
     k.probe("snapshots_with_sharing", shared_seen)
     key = repr((scenario["prog"], scenario["tps"])) if shared_seen else None
     return common.result(k, snapcommon.dedup(viol), key=key)
